@@ -541,6 +541,7 @@ func runC16(c *Ctx) {
 	// R22 (= C06.R21): entry names go on the wire as the lister gave them
 	checkStringsEncodedVerbatim(c, "R22")
 	checkOnlyEOFEndsListing(c, "R23")
+	checkRepliesHoldNoPooledMemory(c, "R24")
 	// R14 (shared with C05.R3/C10.R5): a lister's end of directory — io.EOF, bare or wrapped the way filelist itself
 	// accepts it — is answered with SSH_FX_EOF, which is what ends the client's loop successfully
 	c.withRule("R14", func() { checkErrorShapes(c, "R3") })
